@@ -205,6 +205,18 @@ def eval_monad_groupby(a, backend):
     arr = backend.kg_asarray(a)
     if backend.array_size(arr) == 0:
         return arr
+    if getattr(arr, 'ndim', 1) > 1 or backend.get_dtype_kind(arr) == 'O':
+        # the elements are lists (rows of a matrix, nested lists, strings): group whole elements by Match
+        reps, groups = [], []
+        for i, x in enumerate(arr):
+            for j, r in enumerate(reps):
+                if backend.kg_equal(x, r):
+                    groups[j].append(i)
+                    break
+            else:
+                reps.append(x)
+                groups.append([i])
+        return backend.kg_asarray([bknp.asarray(g) for g in groups])
     vals, inverse = bknp.unique(arr, return_inverse=True)
     groups = [bknp.where(inverse == i)[0] for i in range(len(vals))]
     groups.sort(key=lambda g: int(g[0]))  # unique() sorts by value; groups appear in order of first occurrence
